@@ -316,8 +316,13 @@ def family_sos():
             for cn, ac in cons:
                 yield ('sos %s %s %s' % (sn, rn, cn), Model(VS, acons=ac, obj=('max', None, {0: 1.0, 1: 2.0, 2: 1.0}),
                                                           suffixes=[(0, False, 'sosno', so), (0, True, 'ref', rf)]))
-    yield ('sos via .sos/.sosref', Model(VS, acons=cons[0][1], obj=('max', None, {0: 1.0, 1: 2.0, 2: 1.0}),
-                                         suffixes=[(0, False, 'sos', {0: 1, 1: 1, 2: 1}), (0, True, 'sosref', refs[0][1])]))
+    # .sos/.sosref are the suffixes AMPL itself generates when it linearises a PL term or an `in` domain: the
+    # members are weights in [0,1] tied by a convexity row sum = 1 (mp relies on that: "for linearized PL").
+    VL = [(0.0, 1.0, False, 0.5), (0.0, 1.0, False, 0.5), (0.0, 1.0, False, 0.5)]
+    for cn, extra in (('w>=0.5', [(None, {1: 1.0, 2: 2.0}, 0.5, INF)]), ('w==1.5', [(None, {1: 1.0, 2: 2.0}, 1.5, 1.5)]), ('none', [])):
+        yield ('sos via .sos/.sosref (convexity row) %s' % cn,
+               Model(VL, acons=[(None, {0: 1.0, 1: 1.0, 2: 1.0}, 1.0, 1.0)] + extra, obj=('max', None, {0: 1.0, 1: 2.0, 2: 1.0}),
+                     suffixes=[(0, False, 'sos', {0: 1, 1: 1, 2: 1}), (0, True, 'sosref', refs[0][1])]))
 
 
 def family_dvars():
@@ -394,11 +399,40 @@ def family_cones():
                               lcons=[('or', ('ge', x, N(1)), ('ge', w, N(1)))], obj=('min', None, {1: 1.0})))
 
 
+def family_pl():
+    """piecewise-linear terms: convex / concave / non-convex, 1..5 breakpoints (the SOS2 and the ZZI
+    logarithmic encodings depend on the number of segments), breakpoints on both sides of 0 / all positive /
+    all negative / outside the argument's domain, over a continuous, an integer and a zero-crossing continuous
+    argument, at every root"""
+    shapes = [
+        ('tent', (1.0, -1.0), (1.0,)),
+        ('convex3', (-1.0, 1.0, 2.0), (0.0, 1.0)),
+        ('nonconvex4', (2.0, 0.0, -1.0, 1.0), (-1.0, 0.5, 1.5)),
+        ('bp>0', (1.0, 3.0), (1.5,)),
+        ('bp<0', (0.0, 1.0), (-1.0,)),
+        ('zigzag6', (1.0, -1.0, 1.0, -1.0, 1.0, -1.0), (-1.5, -0.5, 0.5, 1.0, 1.5)),
+        ('outside', (1.0, 2.0, -1.0), (-3.0, 4.0)),
+        ('steps5', (0.0, 2.0, 0.0, -2.0, 0.0), (-1.0, 0.0, 1.0, 2.0)),
+    ]
+    VZ = [(-1.5, 1.5, False, 0.5), (-2.0, 2.0, True, 1.0), (0.0, 1.0, True, 1.0)]
+    for sn, sl, bp in shapes:
+        for an, arg, V in (('y', Y, V3), ('x', X, V3), ('y0', Y, VZ)):
+            e = ('pl', sl, bp, arg)
+            for nm, m in roots_numeric('pl %s(%s)' % (sn, an), e, V):
+                yield (nm, m)
+        # inside a comparison that is reified, and as one term of a sum with another PL term on the other variable
+        yield ('pl %s reified' % sn, Model(V3, lcons=[('or', ('ge', ('pl', sl, bp, X), N(1)), ('ge', B, N(1)))],
+                                           obj=('min', None, {0: 1.0, 1: 1.0, 2: 1.0})))
+        yield ('pl %s sum' % sn, Model(V3, acons=[(('add', ('pl', sl, bp, Y), ('pl', (1.0, -1.0), (1.0,), X)), {}, 0.5, 1.5)]))
+        # the same two terms in the other order (the ZZI encoding table grows with the largest term seen so far)
+        yield ('pl %s sum-rev' % sn, Model(V3, acons=[(('add', ('pl', (1.0, -1.0), (1.0,), Y), ('pl', sl, bp, X)), {}, 0.5, 1.5)]))
+
+
 FAMILIES = {
     'shapes': family_shapes, 'sharing': family_sharing, 'canon': family_canon, 'uenc': family_uenc,
     'bounds': family_bounds, 'linmix': family_linear_mix, 'alldiffcont': family_alldiff_cont,
     'compl': family_compl, 'sos': family_sos, 'dvars': family_dvars, 'fracint': family_fracint,
-    'cones': family_cones,
+    'cones': family_cones, 'pl': family_pl,
 }
 
 
